@@ -189,6 +189,22 @@ def block_shape(fv, gv, fu=None, gu=None):
     return s
 
 
+def postprocess_look(region, seed):
+    """Post-processing between two computations that works with the region's own element and
+    quadrature objects (extrapolation of quadrature-point values to the points builds a temporary
+    region from them; plotting, copying) - nothing the region gives out afterwards may differ."""
+    if seed % 2:
+        return False
+    vals = np.ones((region.quadrature.npoints, region.mesh.ncells))
+    try:
+        fem.tools.extrapolate(vals, region, mean=not hasattr(region.quadrature, "inv"))
+    except (AttributeError, NotImplementedError, ValueError, TypeError):
+        pass  # the helper refuses this element / quadrature combination
+    world.look_at_region(region)
+    return True
+
+
+
 # ----------------------------------------------------------------------------------------
 def run_array(doc, log):
     a = doc["array"]
@@ -388,6 +404,8 @@ def run_array(doc, log):
         if doc["fieldkind"] in ("Axi", "Mixed3axi"):
             onaxis = np.abs(mesh.points[:, 1]) < 1e-12
             newp[onaxis, 1] = 0.0
+        if postprocess_look(region, a["geometry_seed"]):
+            log.count("postprocessing-before-reload")
         mesh.update(points=newp, callback=region.reload)
         if np.any(region.dV <= 0):
             raise Discard("invalid-mesh-after-reload")
@@ -801,6 +819,8 @@ def run_form(doc, log):
         prng = np.random.default_rng(f["reload_seed"])
         span = mesh.points.max(0) - mesh.points.min(0)
         newp = mesh.points + 0.04 * span.min() / max(doc["mesh"]["n"]) * prng.uniform(-1, 1, mesh.points.shape)
+        if postprocess_look(region, f["reload_seed"]):
+            log.count("postprocessing-before-reload")
         mesh.update(points=newp, callback=region.reload)
         if np.any(region.dV <= 0):
             raise Discard("invalid-mesh-after-reload")
